@@ -27,5 +27,23 @@ theorem reachable_parse_idempotent_quantity (ops : List Op) (g : Grammar) (t : S
       CM.exec (parseQuantity g t : CM α (Qty α)) c :=
   C17.parse_idempotent_quantity g t c (by rw [hc]; exact reachable_good ops)
 
+/-- In EVERY state reachable from the imported library: the magnitude of an accepted quantity is
+    `int(text)` of an integer literal or `float(text)` of a decimal literal, and an `int` magnitude is
+    the decimal value of a text `[+-]digits`. -/
+theorem reachable_parse_magnitude_as_written (ops : List Op) (g : Grammar) (t : String) (c : Conv α)
+    (hc : c.st = run init ops) (q : Qty α)
+    (h : (CM.exec (parseQuantity g t : CM α (Qty α)) c).1 = .ok q) :
+    Written q.mag ∧
+    (q.mag.isInt = true →
+      ∃ text : String, (stripSign text.toList).isEmpty = false ∧ (stripSign text.toList).all isDigit = true ∧
+        q.mag = .int (if isNegChars text.toList then -((Nat.ofDigitChars 10 (stripSign text.toList) 0 : Nat) : Int)
+                      else ((Nat.ofDigitChars 10 (stripSign text.toList) 0 : Nat) : Int))) :=
+  have hg : Good c.st := by rw [hc]; exact reachable_good ops
+  ⟨(C17.parse_magnitude_as_written g t c hg q h).1,
+   C17.parse_int_magnitude_is_integer_literal g t c hg q h⟩
+
+/-- the hypotheses are met and both cases of `Written` occur: `int("-12")` and `float("2.5e3")` -/
+example : pyInt "-12" = .ok (-12) ∧ decimalLiteral "2.5e3" = some 2500 := by decide +kernel
+
 end
 end Measured.Obligations
